@@ -53,23 +53,36 @@ def printed_multiline(output):
 # ======================================================================
 
 def split_behaviour(steps):
-    """[(lbl, state)] -> (kinds, replies, outcomes, closed)"""
+    """[(lbl, state)] -> (kinds, events, outcomes, closed); events =
+    ('reply', id, type) | ('cancel', id)"""
     st0 = steps[0][1]
-    k = len(st0['kind'])
-    kinds = [st0['kind'][i] for i in range(k)] \
-        if isinstance(st0['kind'], list) else \
-        [st0['kind'][i] for i in sorted(st0['kind'])]
-    replies = []
+    kinds = _fn_list(st0['kind'])
+    events = []
     last = st0
     for lbl, st in steps[1:]:
-        if lbl[0] != 'reply' or (replies and st['nrep'] == last['nrep']):
+        if lbl[0] not in ('reply', 'cancel') or \
+                (events and st['nrep'] == last['nrep'] and
+                 st['cancelled'] == last['cancelled']):
             break
-        replies.append((lbl[1], lbl[2]))
+        events.append(tuple(lbl))
         last = st
-    out = last['outcome']
-    outcomes = [out[i] for i in range(k)] if isinstance(out, list) else \
-        [out[i] for i in sorted(out)]
-    return kinds, replies, [tuple(o) for o in outcomes], last['closed']
+    outcomes = [tuple(o) for o in _fn_list(last['outcome'])]
+    return kinds, events, outcomes, last['closed']
+
+
+def _fn_list(f):
+    if isinstance(f, list):
+        return list(f)
+    return [f[i] for i in sorted(f)]
+
+
+def norm_events(events):
+    """Accepts old-style [(id, type)] reply lists as well"""
+    out = []
+    for e in events:
+        e = tuple(e)
+        out.append(('reply',) + e if len(e) == 2 and e[0] != 'cancel' else e)
+    return out
 
 
 def _reply_packet(script, rid, tag, rtype):
@@ -94,12 +107,14 @@ def _reply_packet(script, rid, tag, rtype):
         raise ValueError(rtype)
 
 
-def client_replay(kinds, replies, version=3, model_outcomes=None,
-                  model_closed=None):
+def client_replay(kinds, events, version=3, model_outcomes=None,
+                  model_closed=None, followup=True):
     """Run one SftpProto behaviour against the real client."""
+    events = norm_events(events)
+    replies = [(e[1], e[2]) for e in events if e[0] == 'reply']
     w = sftp_io.world()
     loop = w.loop
-    res = {'kinds': kinds, 'replies': replies, 'version': version, 'l1': [],
+    res = {'kinds': kinds, 'events': events, 'version': version, 'l1': [],
            'diverged': None}
     files = {b'pre': sftp_io.RFile(b'0123456789')}
     sftp, script = w.session(sftp_version=version, version=version,
@@ -143,7 +158,14 @@ def client_replay(kinds, replies, version=3, model_outcomes=None,
                               f'{ids}'))
         sent_ids = set()
         bad_id = False
-        for mid, rtype in replies:
+        cancelled = set()
+        for ev in events:
+            if ev[0] == 'cancel':
+                cancelled.add(ev[1])
+                tasks[ev[1]].cancel()
+                loop.run_until_idle()
+                continue
+            mid, rtype = ev[1], ev[2]
             if mid == 99 or mid >= len(ids):
                 rid, tag = UNKNOWN_ID, 99
             else:
@@ -153,6 +175,7 @@ def client_replay(kinds, replies, version=3, model_outcomes=None,
             sent_ids.add(mid)
             _reply_packet(script, rid, tag, rtype)
             loop.run_until_idle()
+        res['bad_id'] = bad_id
         # ---- observe ----
         obs = []
         for i, t in enumerate(tasks):
@@ -163,6 +186,8 @@ def client_replay(kinds, replies, version=3, model_outcomes=None,
             first.setdefault(mid, rtype)
         for i, o in enumerate(obs):
             kind = kinds[i]
+            if i in cancelled:
+                continue                # the caller gave up: nothing is owed
             legal = first.get(i) in ('ok', 'err', kind) and \
                 not (first.get(i) == 'ok' and kind != 'status')
             if o[0] == 'value':
@@ -208,6 +233,23 @@ def client_replay(kinds, replies, version=3, model_outcomes=None,
                         and not (bad_id and _before_bad(replies, i)):
                     res['l1'].append(('OwnReply', f'caller {i} (status) was '
                                       f'sent FX_OK but got {o}'))
+        if followup and not bad_id:
+            # no reply carried an id without a table entry: the session must
+            # still be alive and give a new caller its own reply
+            n1 = len(script.held)
+            ft = loop.create_task(sftp.stat(b'/followup'))
+            loop.run_until_idle()
+            if len(script.held) > n1:
+                _reply_packet(script, script.held[-1].id, 77, 'attrs')
+                loop.run_until_idle()
+            fo = _observe(ft, 'attrs')
+            if not ft.done():
+                ft.cancel()
+            res['followup'] = fo
+            if fo != ('value', 'attrs', 77):
+                res['l1'].append(('SessionSurvives', f'every reply carried a '
+                                  f'known id, yet a new request afterwards '
+                                  f'got {fo} instead of its own reply'))
         if model_outcomes is not None and not res['l1']:
             want = [_model_obs(o) for o in model_outcomes]
             got = [_norm_obs(o) for o in obs]
@@ -282,6 +324,8 @@ def _model_obs(o):
 def _norm_obs(o):
     if o[0] == 'err':
         return ('err',)
+    if o == ('other', 'cancelled'):
+        return ('cancelled',)
     return o
 
 
